@@ -147,3 +147,23 @@ def run_sortlemma(h, sc, ec, P, N):
         h.check(f"{name} is a permutation of the input",
                 h.And([h.eq(h.count([h.eq(g, x, 0) for g in got]), h.count([h.eq(y, x, 0) for y in src])) for x in src]))
     h.check("lengths", len(h.cells(S.pos)) == P and len(h.cells(S.neg)) == N)
+
+
+def regressions(h):
+    """auxiliary concrete sweep: float32 / integer score dtypes with float64 thresholds (the model has a single real dtype)."""
+    np = h.np
+    rng = np.random.RandomState(3)
+    bad = []
+    for dt in (np.float32, np.int64, np.float64):
+        pos = (rng.uniform(0, 4, 7)).astype(dt)
+        neg = (rng.uniform(0, 4, 6)).astype(dt)
+        thr = np.concatenate([[0.1, 0.7, 1.3, np.inf, -np.inf], pos.astype(np.float64), np.nextafter(neg.astype(np.float64), np.inf), np.nextafter(pos.astype(np.float64), -np.inf)])
+        for sc, ec in CFGS:
+            S = h.sa.Scores(pos, neg, nb_easy_pos=2, nb_easy_neg=3, score_class=sc, equal_class=ec)
+            m = S.cm(thr).matrix
+            for j, t in enumerate(thr):
+                acc = {("pos", "pos"): lambda s: s >= t, ("pos", "neg"): lambda s: s > t, ("neg", "pos"): lambda s: s <= t, ("neg", "neg"): lambda s: s < t}[(sc, ec)]
+                tp, fp = int(acc(pos.astype(np.float64)).sum()), int(acc(neg.astype(np.float64)).sum())
+                if m[j].tolist() != [[tp + 2, len(pos) - tp], [fp, len(neg) - fp + 3]]:
+                    bad.append((dt.__name__, sc, ec, float(t)))
+    h.check("[dtype sweep] cm = counting for float32 / int64 / float64 scores with float64 thresholds", not bad)
